@@ -71,4 +71,24 @@ for pid in props:
                "head": head, "secs": secs}
         if r.returncode != 0:
             rec["tail"] = r.stdout[-500:]
+        if r.returncode == 2:
+            # a multi-file control kept as several patches (n5_..._header.diff + n5_..._moves.diff) does not compile
+            # alone: it is judged by the combined run below
+            prefix = os.path.basename(patch).split("_")[0] + "_"
+            sibs = sorted(glob.glob(os.path.join(os.path.dirname(patch), prefix + "*.diff")))
+            if len(sibs) > 1:
+                rec["part_of"] = pid + "/" + prefix + "*"
+                if patch == sibs[0]:
+                    ok = all(sh(f"git -C {wt} apply {q}").returncode == 0 for q in sibs)
+                    if ok:
+                        t0 = time.time()
+                        r2 = subprocess.run([os.path.join(ROOT, "check"), pid, "--tier", "quick"], cwd=ROOT, env=env,
+                                            stdout=subprocess.PIPE, stderr=subprocess.STDOUT, text=True)
+                        v2 = [l for l in r2.stdout.splitlines() if l.startswith("VIOLATION ")]
+                        rec2 = {"exit": r2.returncode, "violations": len(v2), "combined": [os.path.basename(q) for q in sibs],
+                                "seed": str(seed), "head": head, "secs": round(time.time() - t0)}
+                        if r2.returncode != 0:
+                            rec2["tail"] = r2.stdout[-500:]
+                        record(pid + "/" + prefix + "*(combined)", rec2)
+                    sh(f"git -C {wt} checkout -q -- . && git -C {wt} clean -fdq lib")
         record(key, rec)
